@@ -66,10 +66,12 @@ def abstract_path(R, p):
 class World:
     """Materialised world + the patches that make pyflyby see it (HOME, cwd, etc-dirs, st_dev)."""
 
+    base = None         # per-run scratch parent (set by C12.setup, removed by C12.teardown)
+
     def __init__(self, case):
         self.case = case
         self.index = tree_index(case["tree"])
-        self.tmp = os.path.realpath(tempfile.mkdtemp(prefix="pfbc12_"))
+        self.tmp = os.path.realpath(tempfile.mkdtemp(prefix="pfbc12_", dir=World.base))
         self.R = self.tmp + "/r"
         build_tree(self.R, case["tree"])
         self.saved_env = {k: os.environ.get(k) for k in ENV_NAMES + ["HOME"]}
@@ -403,14 +405,14 @@ class C12(Prop):
         ("lib/python/pyflyby/_importstmt.py", "Import.split"),
     ]
     quick_cases = 400
-    thorough_cases = 3000
+    thorough_cases = 1500
     quick_deadline_s = 60
     thorough_deadline_s = 600
     rule = ("worlds from harness/gen_c12.py: directory trees with files and directories named .pyflyby/.cfg at several "
             "ancestor levels, nested *.py directories with hidden entries, __pycache__, non-.py and unsafe names, simulated "
             "partitions, database files with known/mandatory/canonical/forget statements in random order and spelling; "
             "6 lookup histories (length <= 4) per world over a small target x env alphabet, plus (exhaustive) every history "
-            "up to length 2 (quick) / 3-4 (thorough) over a 4 x 3 alphabet; a case is non-trivial when some lookup loads "
+            "up to length 2 (quick) / 3, every tenth world 4 (thorough) over a <=4 x <=3 alphabet; a case is non-trivial when some lookup loads "
             ">= 2 files and some history has a cache hit")
     trusted_base = ["the rendering of abstract imports to Python text and its inverse (CPython import syntax)",
                     "`_get_st_dev`, `_find_etc_dirs`, $HOME and the cwd are set by the harness (simulated partitions)",
@@ -424,7 +426,17 @@ class C12(Prop):
 
     EXH_QUICK_LEN = 2
     EXH_THOROUGH_LEN = 3
-    EXH_THOROUGH_LEN4_EVERY = 5
+    EXH_THOROUGH_LEN4_EVERY = 10
+
+    # -- scratch ---------------------------------------------------------------
+    def setup(self, tier, rng):
+        # one parent per run: worlds of workers killed at the deadline are removed with it
+        World.base = os.path.realpath(tempfile.mkdtemp(prefix="pfbc12run_"))
+
+    def teardown(self):
+        if World.base:
+            shutil.rmtree(World.base, ignore_errors=True)
+            World.base = None
 
     # -- cases ---------------------------------------------------------------
     def gen_case(self, rng, i, tier):
